@@ -218,6 +218,30 @@ def source_tables():
     return {"q3": q3, "q1": q1, "closers": closers, "comma": comma, "fprefixes": fpre}
 
 
+def call_sites():
+    """every comparison `<x>._token_of_node(<node>) != <rhs>` in the package, read from the source text: (file, line, rhs is `list(normalize(...))`).
+    Since the repair F-94 all of them use the normalized form, the one C08_update_fixpoint_norm speaks about."""
+    import inline_snapshot
+    root = Path(inline_snapshot.__file__).parent
+    sites = []
+    for f in sorted(root.rglob("*.py")):
+        try:
+            tree = ast.parse(f.read_text("utf-8"))
+        except SyntaxError as e:
+            raise ValueError(f"{f}: {e}")
+        for n in ast.walk(tree):
+            if isinstance(n, ast.Compare) and isinstance(n.left, ast.Call) and isinstance(n.left.func, ast.Attribute) and n.left.func.attr == "_token_of_node":
+                if len(n.ops) != 1 or not isinstance(n.ops[0], ast.NotEq):
+                    raise ValueError(f"{f.name}:{n.lineno}: _token_of_node(...) is compared in another way than `!=`")
+                r = n.comparators[0]
+                normalized = (isinstance(r, ast.Call) and isinstance(r.func, ast.Name) and r.func.id == "list" and len(r.args) == 1 and isinstance(r.args[0], ast.Call)
+                              and isinstance(r.args[0].func, ast.Name) and r.args[0].func.id == "normalize")
+                sites.append((str(f.relative_to(root)), n.lineno, normalized))
+            elif isinstance(n, ast.Call) and isinstance(n.func, ast.Attribute) and n.func.attr == "_token_of_node" and f.name != "_source_file.py":
+                pass
+    return sites
+
+
 def g_toks(ts):
     return g_list(ts, lambda t: g_pair(g_N(t[0]), g_str(t[1])))
 
@@ -276,6 +300,19 @@ def check_part(ctx, n, label):
             ctx.report(f"the constant tables of _utils.py (normalize_strings / skip_trailing_comma / simple_token.__eq__) are not the tables of Model/Tokens.v any more: {tb}",
                        {"kind": "tokens-tables", "tables": tb}, no_input=True, kind="correspondence")
     ctx.coverage["correspondence"]["utils_tables_from_source"] = tb
+    # which of the two comparisons of Model/Tokens.v each call site uses
+    try:
+        sites = call_sites()
+        ctx.coverage["correspondence"]["token_comparison_sites"] = [f"{f}:{ln}:{'norm' if nm else 'leaf'}" for f, ln, nm in sites]
+        if len(sites) < 4:
+            ctx.report(f"only {len(sites)} comparisons of _token_of_node(...) found in the source (4 expected: value_adapter, undecided_value, min_max_value, collection_value): "
+                       "the update decision is made in a way Model/Tokens.v does not describe", {"kind": "tokens-sites", "sites": sites}, no_input=True, kind="correspondence")
+        for f, ln, nm in sites:
+            if not nm:
+                ctx.report(f"{f}:{ln} compares the tokens of the node with un-normalized value tokens (needs_update_leaf): C08_update_fixpoint_norm does not apply to this call site, "
+                           "see C08_leaf_trailing_comma_update_refuted (F-94)", {"kind": "tokens-sites", "sites": sites}, no_input=True, kind="correspondence")
+    except ValueError as e:
+        ctx.report(f"the call sites of the token comparison are not recognised any more: {e}", {"kind": "tokens-sites"}, no_input=True, kind="correspondence")
     ctx.coverage["traces_validated_against_impl"] += len(terms)
     ctx.coverage["correspondence"]["token_normalize"] = {"cases": len(terms), "mismatches": len(bad), "outside_lexer_model": nuns, "update_pending_leaf": nleaf, "update_pending_norm": nnorm}
     for j in bad[:5]:
